@@ -188,7 +188,7 @@ def analyse_job(job):
     unknown = {}
     for inst in insts:
         key = inst.key(_C, vt)
-        if getattr(inst, "clause", None):
+        if getattr(inst, "clause", None) and not job.get("override"):
             key["clause"] = inst.clause
         ks = json.dumps(key, sort_keys=True)
         if ks not in miss and getattr(inst, "subst", None) is not None:
